@@ -210,6 +210,9 @@ func ghostLeaf(owner, name, kind string) leaf {
 	if kind == "bool" {
 		return leaf{Owner: owner, Field: name, Typ: types.Typ[types.Bool], K: VBool}
 	}
+	if kind == "u" {
+		return leaf{Owner: owner, Field: name, Typ: types.NewInterfaceType(nil, nil), K: VU}
+	}
 	return leaf{Owner: owner, Field: name, Typ: types.Typ[types.Int], K: VInt}
 }
 
